@@ -4,6 +4,7 @@ CONSTANTS
   Keys <- Keys3
   Full = TRUE
   MaxSteps = 14
+  Subs <- SubsAll
   MaxNote = 6
   Fix <- NoFix
 CHECK_DEADLOCK FALSE
